@@ -85,10 +85,10 @@ def task(t):
     spec, out = os.path.join(base, "spec.json"), os.path.join(base, "out.json")
     json.dump({"dir": d, "group": im["group"], "matrix": os.path.join(base, "m.npy"), "ctx": t["ctx"], "rpcs": t["rpcs"]}, open(spec, "w"))
     env = checklib.worker_env(os.path.join(base, "xdg"))
-    p = subprocess.run([sys.executable, "-W", "ignore", "-c", CHILD, spec, out], env=env, stdout=subprocess.PIPE, stderr=subprocess.STDOUT, text=True)
+    txt, _ = checklib.run_child([sys.executable, "-W", "ignore", "-c", CHILD, spec, out], env)
     res = {"task": t, "bad": [], "n": 0}
     if not os.path.exists(out):
-        res["bad"].append(("interpreter-died", "*", p.stdout[-400:]))
+        res["bad"].append(("interpreter-died", "*", txt[-400:]))
         return res
     for rpc, sels in json.load(open(out)).items():
         if "open" in sels:
